@@ -132,8 +132,17 @@ fn spaces_from_bdl(bdl: &Data, id_maps: &IdMaps) -> Result<Vec<Space>, Error> {
     bdl.spaces
         .iter()
         .map(|s| {
-            let space_conds = id_maps.loads_id(&s.spaceconds).ok();
-            let system_conds = id_maps.thermostat_id(&s.systemconds).ok();
+            // Los archivos de LIDER antiguo no definen condiciones de uso ni operacionales y sus espacios no las referencian
+            let space_conds = match id_maps.loads_id(&s.spaceconds) {
+                Ok(id) => Some(id),
+                Err(_) if bdl.space_conditions.is_empty() => None,
+                Err(e) => return Err(e),
+            };
+            let system_conds = match id_maps.thermostat_id(&s.systemconds) {
+                Ok(id) => Some(id),
+                Err(_) if bdl.system_conditions.is_empty() => None,
+                Err(e) => return Err(e),
+            };
             let illuminance = if s.veei_obj > f32::EPSILON {
                 fround2(100.0 * s.power / s.veei_obj)
             } else {
